@@ -720,6 +720,43 @@ func customParamFolder(root, paramDir string, worlds []*World) error {
 	return nil
 }
 
+// reducedParamFolder creates <root>/pless: a copy of the parameter folder whose texture tables hold only the
+// textures of world w (a user's trimmed parameter set). Lines of w select it with parameter=pless.
+func reducedParamFolder(root, paramDir string, w *World) error {
+	dst := filepath.Join(root, "pless")
+	if err := copyDir(paramDir, dst); err != nil {
+		return err
+	}
+	keep := map[string]bool{}
+	for _, h := range w.Soil.Horizons {
+		keep[strings.ToUpper(pad(strings.TrimSpace(h.Tex), 3))] = true
+	}
+	keep["SL3"] = true // the decoy soils
+	// PARCAP.TRU: two lines per texture, no header
+	if b, err := os.ReadFile(filepath.Join(paramDir, "PARCAP.TRU")); err == nil {
+		lines := strings.Split(string(b), "\n")
+		var out []string
+		for i := 0; i+1 < len(lines); i += 2 {
+			if len(lines[i]) >= 3 && keep[strings.ToUpper(lines[i][:3])] {
+				out = append(out, lines[i], lines[i+1])
+			}
+		}
+		os.WriteFile(filepath.Join(dst, "PARCAP.TRU"), []byte(strings.Join(out, "\n")+"\n"), 0o644)
+	}
+	// HYPAR.TRU: one header line
+	if b, err := os.ReadFile(filepath.Join(paramDir, "HYPAR.TRU")); err == nil {
+		lines := strings.Split(string(b), "\n")
+		out := []string{lines[0]}
+		for _, l := range lines[1:] {
+			if len(l) >= 3 && keep[strings.ToUpper(l[:3])] {
+				out = append(out, l)
+			}
+		}
+		os.WriteFile(filepath.Join(dst, "HYPAR.TRU"), []byte(strings.Join(out, "\n")+"\n"), 0o644)
+	}
+	return nil
+}
+
 // Args returns the batch-line arguments for this world.
 func (w *World) Args(extra ...string) []string {
 	a := []string{"project=" + w.Loc, "plotNr=" + w.Plot, "poligonID=" + w.Poly, "fcode=" + w.FCode}
